@@ -5,14 +5,15 @@
 #   3. every behaviour-preserving refactoring is silent
 # usage: tools/regress.sh [budget-s]
 b="${1:-12}"
-cd /verif || exit 2
+cd "$(dirname "$(readlink -f "$0")")/.." || exit 2
+V="$(pwd)"
 echo "== catalogue"; ./vcheck selftest-sensitivity --budget=$b 2>&1 | cut -c1-160 | awk '{print} /MISSED|STALE|UNEXPECTED/ {bad=1} END {exit bad}'; r1=$?
 echo "== seeded"
 r2=0
 for d in seeded/*/; do
   id=$(basename "$d"); prop=$(/venv/bin/python -c "import json; print(json.load(open('$d/meta.json'))['property'])")
   tmp=$(mktemp -d /tmp/akseed-XXXXXX); cp -r /repo/ak "$tmp/ak"
-  if ( cd "$tmp" && patch -p1 -s < "/verif/$d/patch.diff" ); then
+  if ( cd "$tmp" && patch -p1 -s < "$V/$d/patch.diff" ); then
     out=$(AK_REPO="$tmp" timeout 900 ./vcheck "$prop" --budget-s $((b*2)) 2>&1); r=$?
     if [ $r -eq 1 ] && echo "$out" | grep -q "VIOLATION property=$prop"; then echo "  $id $prop caught"; else echo "  $id $prop MISSED rc=$r"; r2=1; fi
   else echo "  $id PATCH-FAILED"; r2=1; fi
